@@ -26,9 +26,11 @@ ids, SBT.select on an empty selection returns self.  Hence, for every collection
 One theorem over all containers: `select_exact`, `select_conj`, `select_chain` (section 6a) hold for every container of
 the model, with the exclusions explicit in `Coll.Ok` / `Coll.Compat` — picklist identity where dicts are merged,
 homogeneous SBT leaves, and, for standalone manifests, `SmiExact` / `SqlmfExact`: no deselected signature of a still
-listed file shares (identifier, md5[:8]) with a selected one.  Section 8b proves that this is *exactly* what
-StandaloneManifestIndex needs (`select_exact_standalone_iff`; known finding C12.3 is its failure,
-`standalone_manifest_collision_counterexample`, `standalone_cross_file_collision`).  Section 9: SBT with and without
+listed file shares its key with a selected one, the key being what `to_picklist()` compares — re-read from the source per
+manifest class: the full (name, md5) since fix cff7217, (identifier, md5[:8]) before.  Section 8b proves that this is
+*exactly* what StandaloneManifestIndex needs (`select_exact_standalone_iff`), spells the remaining exclusion out
+(`standalone_exclusion_now`: same name and same md5 — what is left of known finding C12.3,
+`standalone_same_name_md5_counterexample`) and keeps the old variant as regressions.  Section 9: SBT with and without
 manifest, and LCA databases whose `_signatures` cache was filled before the selection (`lca_select_after_cache`).
 Section 8c: a picklist made from the manifest / search / prefetch / gather output of a selection gives that selection back
 iff no such collision (`output_picklist_roundtrip`).  The old variants of the repaired routines are kept as regression
@@ -494,20 +496,27 @@ theorem ident_prefix_semantics (s : Sig) :
     cases ct <;> simp [Gen.Coltype.isMeta] at hct <;>
       simp [preOf, Gen.preprocessOf, sigAttr, Gen.sigAttrOf, applyPre, applyOps, applyOp, splitOnChar_head]
 
+/-- a picklist loaded from a file keeps the preprocessing of its column type (only `to_picklist()` overrides it) -/
+theorem pre_of_loaded {pl : Picklist} (h : pl.exactRows = false) : pl.pre = preOf pl.coltype := by
+  simp [Picklist.pre, h]
+
 /-- two signatures whose md5s share the first 8 characters cannot be told apart by a prefix picklist,
-    nor — when their identifiers also agree — by a gather / prefetch / search / manifest picklist -/
-theorem md5prefix_collisions (pl : Picklist) (s t : Sig) (h8 : s.md5.take 8 = t.md5.take 8) :
+    nor — when their identifiers also agree — by a gather / prefetch / search / manifest picklist loaded from a file -/
+theorem md5prefix_collisions (pl : Picklist) (hloaded : pl.exactRows = false) (s t : Sig)
+    (h8 : s.md5.take 8 = t.md5.take 8) :
     ((pl.coltype = .md5prefix8 ∨ pl.coltype = .md5short) → pl.hasSig s = pl.hasSig t) ∧
     (pl.coltype.isMeta = true → s.name.takeWhile (· != ' ') = t.name.takeWhile (· != ' ') →
       pl.hasSig s = pl.hasSig t) := by
   constructor
   · intro h
     unfold Picklist.hasSig
+    rw [pre_of_loaded hloaded]
     rcases h with h | h <;> rw [h]
     · rw [(ident_prefix_semantics s).2.2.2.2.1, (ident_prefix_semantics t).2.2.2.2.1, h8]
     · rw [(ident_prefix_semantics s).2.2.2.2.2.1, (ident_prefix_semantics t).2.2.2.2.2.1, h8]
   · intro hm hid
     unfold Picklist.hasSig
+    rw [pre_of_loaded hloaded]
     rw [(ident_prefix_semantics s).2.2.2.2.2.2 _ hm, (ident_prefix_semantics t).2.2.2.2.2.2 _ hm, h8, hid]
 
 /-- … while an `md5` picklist holding one of the two md5s separates them -/
@@ -515,10 +524,11 @@ theorem md5_picklist_separates (s t : Sig) (h : s.md5 ≠ t.md5) :
     let pl : Picklist := { id := 1, coltype := .md5, exclude := false, pickset := [.s s.md5] }
     pl.hasSig s = true ∧ pl.hasSig t = false := by
   intro pl
+  have hpre : pl.pre = preOf .md5 := pre_of_loaded rfl
   have hs : pl.hasSig s = pl.decide (.s s.md5) := by
-    unfold Picklist.hasSig; rw [(ident_prefix_semantics s).2.1]
+    unfold Picklist.hasSig; rw [hpre, (ident_prefix_semantics s).2.1]
   have ht : pl.hasSig t = pl.decide (.s t.md5) := by
-    unfold Picklist.hasSig; rw [(ident_prefix_semantics t).2.1]
+    unfold Picklist.hasSig; rw [hpre, (ident_prefix_semantics t).2.1]
   rw [hs, ht]
   constructor
   · simp [pl, Picklist.decide]
@@ -526,29 +536,21 @@ theorem md5_picklist_separates (s t : Sig) (h : s.md5 ≠ t.md5) :
     simp only [Bool.false_eq_true, if_false, beq_eq_false_iff_ne, ne_eq, PVal.s.injEq]
     exact fun h' => h h'.symm
 
-/-- StandaloneManifestIndex re-reads every file through `manifest.to_picklist()`, i.e. by (ident, md5[:8]):
-    a deselected signature of the same file sharing both with a selected one comes back.  Here `select(ksize=21)`
-    returns the k=31 sketch.  (kernel-checked; the correspondence stream reproduces it on the real code with
-    two real md5s sharing 8 hex digits) -/
-def colA : Sig :=
-  { ksize := 21, mol := .DNA, num := 0, scaled := 1000, abund := false, name := ['G', ' ', '1'],
-    md5 := ['a', '7', '1', '0', '9', '3', '0', '7', '2'], hashes := [1] }
-def colB : Sig :=
-  { ksize := 31, mol := .DNA, num := 0, scaled := 1000, abund := false, name := ['G', ' ', '2'],
-    md5 := ['a', '7', '1', '0', '9', '3', '0', '7', '7'], hashes := [2] }
+/-! ## 8b. StandaloneManifestIndex: exactly when re-reading through `to_picklist()` is the selection
 
-theorem standalone_manifest_collision_counterexample :
-    ∃ y, ((Coll.smi [mkRow colA 0, mkRow colB 0] [(0, [colA, colB])]).select { ksize := .val 21 }).2 = .ok y ∧
-      y.signatures = .ok [colA, colB] ∧ Sat { ksize := .val 21 } colB = false :=
-  ⟨_, rfl, rfl, rfl⟩
-
-/-! ## 8b. StandaloneManifestIndex: exactly when re-reading by (identifier, md5[:8]) is the selection -/
+`to_picklist()` is re-read from the source per manifest class (`Gen.toPicklistExactCsv`, `Gen.toPicklistExactSql`):
+since cff7217 the derived picklist compares the full (name, md5) of a row; before, (identifier, md5[:8]).  The theorems
+are stated for whichever variant the source has (`SmiExact e`); the readable form of the current exclusion is
+`standalone_exclusion_now`.  What is left of known finding C12.3: a deselected signature of a still listed file that
+has the *same name and the same md5* as a selected one — sketches of one sequence differing only in abundance tracking,
+in num-vs-scaled with the same retained hashes, or in molecule type with the same hashes — is still returned
+(`standalone_same_name_md5_counterexample`); the statement condemns it. -/
 
 /-- a standalone manifest over files holding several signatures each (`SmiOk`): `select` never refuses, and — provided no
-    deselected signature of a file that is still listed shares (identifier, md5[:8]) with a selected one (`SmiExact`) —
-    `signatures()` lists exactly the satisfying signatures (file by file, hence up to permutation) -/
+    deselected signature of a file that is still listed shares its key with a selected one (`SmiExact`) — `signatures()`
+    lists exactly the satisfying signatures (file by file, hence up to permutation) -/
 theorem select_exact_standalone_partial {rs : List (Row × Sig)} {store : Store} (c : Crit) (hok : SmiOk rs store)
-    (hex : SmiExact rs (fun x => Sat c x.2)) :
+    (hex : SmiExact Gen.toPicklistExactCsv rs (fun x => Sat c x.2)) :
     ∃ y l, ((Coll.smi (rs.map (·.1)) store).select c).2 = .ok y ∧ y.signatures = .ok l ∧
       l.Perm ((rs.map (·.2)).filter (Sat c)) := by
   have hf : filterE (fun a : Row × Sig => rowPasses a.1 c) rs = .ok (rs.filter (fun x => Sat c x.2)) := by
@@ -577,9 +579,9 @@ theorem standalone_complete {rs : List (Row × Sig)} {store : Store} (c : Crit) 
     the request iff no deselected signature of a listed file shares its key with a selected one -/
 theorem select_exact_standalone_iff {rs : List (Row × Sig)} {store : Store} (c : Crit) (hok : SmiOk rs store)
     {l : List Sig} (hl : (Coll.smi ((rs.filter (fun x => Sat c x.2)).map (·.1)) store).signatures = .ok l) :
-    (∀ s ∈ l, Sat c s = true) ↔ SmiExact rs (fun x => Sat c x.2) := by
+    (∀ s ∈ l, Sat c s = true) ↔ SmiExact Gen.toPicklistExactCsv rs (fun x => Sat c x.2) := by
   constructor
-  · exact smi_exact_of_sound hok (Sat c) hl
+  · exact smi_exact_of_sound _ hok (Sat c) hl
   · intro hex s hs
     obtain ⟨l', hl', hperm⟩ := smi_signatures_exact hok _ hex
     rw [hl] at hl'
@@ -588,41 +590,82 @@ theorem select_exact_standalone_iff {rs : List (Row × Sig)} {store : Store} (c 
     obtain ⟨x, hx, rfl⟩ := List.mem_map.mp (hperm.mem_iff.mp hs)
     exact (List.mem_filter.mp hx).2
 
-/-- sufficient: no two rows of the *whole* manifest share (identifier, md5[:8]) -/
-theorem standalone_exact_of_distinct_keys {rs : List (Row × Sig)} (c : Crit)
-    (hd : ∀ t ∈ rs, ∀ u ∈ rs, keyOf t.2 = keyOf u.2 → t = u) : SmiExact rs (fun x => Sat c x.2) :=
-  smiExact_of_distinct_keys _ hd
+/-- the exclusion for the current source, spelled out: a deselected signature of a still listed file with the same name
+    and the same md5 as a selected one -/
+theorem standalone_exclusion_now (rs : List (Row × Sig)) (P : Row × Sig → Bool) :
+    SmiExact true rs P ↔
+      ∀ t ∈ rs, (∃ u ∈ rs, P u = true ∧ u.1.loc = t.1.loc) →
+        (∃ u ∈ rs, P u = true ∧ u.2.name = t.2.name ∧ u.2.md5 = t.2.md5) → P t = true := by
+  unfold SmiExact
+  simp only [listed, keyIn, List.any_eq_true, beq_iff_eq, List.mem_filter, keyOfW_true_eq_iff]
+  constructor
+  · intro h t ht ⟨u, hu, hpu, hl⟩ ⟨v, hv, hpv, hn, hm⟩
+    exact h t ht ⟨u, ⟨hu, hpu⟩, hl⟩ ⟨v, ⟨hv, hpv⟩, hn, hm⟩
+  · intro h t ht ⟨u, ⟨hu, hpu⟩, hl⟩ ⟨v, ⟨hv, hpv⟩, hn, hm⟩
+    exact h t ht ⟨u, hu, hpu, hl⟩ ⟨v, hv, hpv, hn, hm⟩
 
-/-- *not* sufficient: distinct keys within every single file.  The picklist made from the manifest is global, so a
-    deselected signature comes back when it shares its key with a selected signature of *another* file, as soon as its own
-    file is listed for some other selected row (kernel-checked: `select(ksize=21)` returns the k=31 sketch `colB`) -/
+/-- the fix only shrinks the exclusion: whatever was exact with (identifier, md5[:8]) keys is exact with (name, md5) keys -/
+theorem standalone_exclusion_shrinks {rs : List (Row × Sig)} {P : Row × Sig → Bool} (h : SmiExact false rs P) :
+    SmiExact true rs P :=
+  smiExact_true_of_false h
+
+/-- sufficient: no two rows of the whole manifest share the key -/
+theorem standalone_exact_of_distinct_keys {rs : List (Row × Sig)} (c : Crit)
+    (hd : ∀ t ∈ rs, ∀ u ∈ rs, keyOfW Gen.toPicklistExactCsv t.2 = keyOfW Gen.toPicklistExactCsv u.2 → t = u) :
+    SmiExact Gen.toPicklistExactCsv rs (fun x => Sat c x.2) :=
+  smiExact_of_distinct_keys _ _ hd
+
+def colA : Sig :=
+  { ksize := 21, mol := .DNA, num := 0, scaled := 1000, abund := false, name := ['G', ' ', '1'],
+    md5 := ['a', '7', '1', '0', '9', '3', '0', '7', '2'], hashes := [1] }
+def colB : Sig :=
+  { ksize := 31, mol := .DNA, num := 0, scaled := 1000, abund := false, name := ['G', ' ', '2'],
+    md5 := ['a', '7', '1', '0', '9', '3', '0', '7', '7'], hashes := [2] }
 def colC : Sig :=
   { ksize := 21, mol := .DNA, num := 0, scaled := 1000, abund := false, name := ['H', ' ', '3'],
     md5 := ['c', 'c', 'c', 'c', 'c', 'c', 'c', 'c', 'c'], hashes := [3] }
 
-theorem standalone_cross_file_collision :
-    let rs := [(mkRow colC 0, colC), (mkRow colB 0, colB), (mkRow colA 1, colA)]
+/-- regression (variant before fix cff7217, the former shape of known finding C12.3): re-reading by (identifier, md5[:8])
+    returned a deselected signature sharing both with a selected one — `select(ksize=21)` gave back the k=31 sketch `colB`;
+    with (name, md5) keys it does not -/
+theorem standalone_manifest_collision_old_variant_regression :
+    let sub := [mkRow colA 0]               -- the rows `select(ksize=21)` keeps of [colA, colB]
+    let store : Store := [(0, [colA, colB])]
+    standaloneSignatures false sub (locations sub) store = .ok [colA, colB] ∧
+      standaloneSignatures true sub (locations sub) store = .ok [colA] ∧
+      Sat { ksize := .val 21 } colB = false :=
+  ⟨rfl, rfl, rfl⟩
+
+/-- regression, across files: distinct keys within every single file were not enough for the old variant — the derived
+    picklist is global, so `colB` (file 0) came back through `colA` (file 1) once file 0 was listed for `colC` -/
+theorem standalone_cross_file_collision_old_variant_regression :
+    let sub := [mkRow colC 0, mkRow colA 1]
     let store : Store := [(0, [colC, colB]), (1, [colA])]
-    SmiOk rs store ∧ keyOf colC ≠ keyOf colB ∧ keyOf colA = keyOf colB ∧
-      ∃ y, ((Coll.smi (rs.map (·.1)) store).select { ksize := .val 21 }).2 = .ok y ∧
-        y.signatures = .ok [colC, colB, colA] ∧ Sat { ksize := .val 21 } colB = false := by
-  refine ⟨⟨?_, ?_⟩, by decide, rfl, _, rfl, rfl, rfl⟩
-  · intro x hx
-    simp only [List.mem_cons, List.not_mem_nil, or_false] at hx
-    rcases hx with rfl | rfl | rfl <;> rfl
-  · intro loc
-    by_cases h0 : loc = 0
-    · subst h0; rfl
-    · by_cases h1 : loc = 1
-      · subst h1; rfl
-      · have e0 : ((0 : Nat) == loc) = false := by simp; omega
-        have e1 : ((1 : Nat) == loc) = false := by simp; omega
-        simp [Store.load, List.find?, mkRow, e0, e1]
+    keyOfW false colC ≠ keyOfW false colB ∧ keyOfW false colA = keyOfW false colB ∧
+      standaloneSignatures false sub (locations sub) store = .ok [colC, colB, colA] ∧
+      standaloneSignatures true sub (locations sub) store = .ok [colC, colA] :=
+  ⟨by decide, rfl, rfl, rfl⟩
+
+/-- what is left of C12.3 (kernel-checked on the model of the current source): two sketches of the same sequence in one
+    file, same name, same md5, one tracking abundance — `select(abund=True)` on the standalone manifest returns both -/
+def abundTwin : Sig := { flatSig with abund := true }
+
+theorem standalone_same_name_md5_counterexample :
+    let rs := [(mkRow flatSig 0, flatSig), (mkRow abundTwin 0, abundTwin)]
+    let store : Store := [(0, [flatSig, abundTwin])]
+    flatSig.name = abundTwin.name ∧ flatSig.md5 = abundTwin.md5 ∧
+      Sat { abund := .val true } flatSig = false ∧
+      standaloneSignatures true [mkRow abundTwin 0] (locations [mkRow abundTwin 0]) store = .ok [flatSig, abundTwin] ∧
+      ¬ SmiExact true rs (fun x => Sat { abund := .val true } x.2) := by
+  refine ⟨rfl, rfl, rfl, rfl, ?_⟩
+  intro h
+  have := h (mkRow flatSig 0, flatSig) (by simp) rfl rfl
+  exact absurd this (by decide)
 
 /-- the SQLite flavour (`load_sqlite_index` on a manifest-only database): files are listed by the SQL `WHERE` alone
     (`locations()` ignores the picklist), so the exclusion `SqlmfExact` quantifies over those -/
 theorem select_exact_sqlite_manifest_partial {rs : List (Row × Sig)} {store : Store} {c : Crit} {y : Coll}
-    (hok : SmiOk rs store) (hwf : ∀ x ∈ rs, WF x.2) (hex : SqlmfExact rs c)
+    (hok : SmiOk rs store) (hwf : ∀ x ∈ rs, WF x.2) (hex : SqlmfExact Gen.toPicklistExactSql rs c)
     (h : ((Coll.sqlmf (rs.map (·.1)) {} store).select c).2 = .ok y) :
     ∃ l, y.signatures = .ok l ∧ l.Perm ((rs.map (·.2)).filter (Sat c)) := by
   obtain ⟨d', hm, rfl⟩ := sqlmf_select h
@@ -631,7 +674,10 @@ theorem select_exact_sqlite_manifest_partial {rs : List (Row × Sig)} {store : S
   subst hm
   exact sqlmf_signatures_exact _ hok hwf hex
 
-/-! ## 8c. picklists made from the output of a selection (manifest / search / prefetch / gather CSVs) -/
+/-! ## 8c. picklists made from the output of a selection (manifest / search / prefetch / gather CSVs)
+
+These picklists are *loaded from a file* (`SignaturePicklist.load`), so they keep the tuple preprocessing
+(identifier, md5[:8]) whatever `to_picklist()` does: fix cff7217 does not touch this section. -/
 
 /-- the picklist `--picklist out.csv::<coltype>` loads from the (name, md5) rows the sketches `l` produce in a manifest,
     search, prefetch or gather CSV -/
@@ -641,13 +687,13 @@ def outputPicklist (id : Nat) (ct : Coltype) (exclude : Bool) (l : List Sig) : P
 /-- it matches exactly the signatures sharing (identifier, md5[:8]) with one of `l` -/
 theorem output_picklist_matches {ct : Coltype} (hct : ct.isMeta = true) (id : Nat) (l : List Sig) (s : Sig) :
     (outputPicklist id ct false l).hasSig s = true ↔ ∃ t ∈ l, keyOf t = keyOf s := by
-  rw [hasSig_meta hct _ rfl]
+  rw [hasSig_meta hct _ rfl rfl]
   simp only [outputPicklist, Picklist.decide, Bool.false_eq_true, if_false, List.contains_iff_mem]
   exact loadPickset_meta hct l (keyOf s)
 
 theorem output_picklist_exclude {ct : Coltype} (hct : ct.isMeta = true) (id : Nat) (l : List Sig) (s : Sig) :
     (outputPicklist id ct true l).hasSig s = !(outputPicklist id ct false l).hasSig s := by
-  rw [hasSig_meta hct _ rfl, hasSig_meta hct _ rfl]
+  rw [hasSig_meta hct _ rfl rfl, hasSig_meta hct _ rfl rfl]
   simp [outputPicklist, Picklist.decide]
 
 theorem filter_eq_filter_iff {α : Type} (p q : α → Bool) (l : List α) :
@@ -661,7 +707,7 @@ theorem filter_eq_filter_iff {α : Type} (p q : α → Bool) (l : List α) :
 
 /-- round trip: a picklist built from the output of the selection `X = l₀.filter P` of a collection listing `l₀`, applied
     to that collection, selects exactly `X` — iff no deselected signature of the collection shares (identifier, md5[:8]) with
-    a selected one (the C12.3-type collision, here for every column type taken from sourmash output) -/
+    a selected one -/
 theorem output_picklist_roundtrip {ct : Coltype} (hct : ct.isMeta = true) (id : Nat) (l₀ : List Sig) (P : Sig → Bool) :
     l₀.filter (outputPicklist id ct false (l₀.filter P)).hasSig = l₀.filter P ↔
       ∀ s ∈ l₀, (∃ t ∈ l₀.filter P, keyOf t = keyOf s) → P s = true := by
@@ -705,6 +751,22 @@ theorem output_picklist_select_linear {ct : Coltype} (hct : ct.isMeta = true) (i
   rw [← hd t ht'.1 s hs hk]
   exact ht'.2
 
+/-- the picklist the *code* derives from a manifest (`to_picklist()`, used by `sig extract` with `--name` or `--md5`, `sig grep`,
+    `--include-db-pattern`) gives the picked rows back exactly, up to signatures with the same name and the same md5
+    (fix cff7217; regression of known finding C12.5: with the old variant the twin `G twin` came back for `G coli`) -/
+def coli : Sig := { flatSig with name := ['G', ' ', 'c', 'o', 'l', 'i'] }
+def coliTwin : Sig := { flatSig with name := ['G', ' ', 't', 'w', 'i', 'n'] }
+
+theorem derived_picklist_reselects_rows :
+    coli.md5 = coliTwin.md5 ∧
+      ((derivedPicklist true [mkRow coli 0]).hasSig coli = true ∧ (derivedPicklist true [mkRow coli 0]).hasSig coliTwin = false) ∧
+      ((derivedPicklist false [mkRow coli 0]).hasSig coliTwin = true) ∧
+      ∀ (rows : List Row) (s : Sig),
+        (derivedPicklist true rows).hasSig s = true ↔ ∃ r ∈ rows, rowKeyW true r = .p s.name s.md5 := by
+  refine ⟨rfl, ⟨rfl, rfl⟩, rfl, ?_⟩
+  intro rows s
+  rw [derivedPicklist_hasSig, List.contains_iff_mem, List.mem_map, keyOfW_true]
+
 /-! ## 8d. a picklist object used by several selects / databases -/
 
 /-- the bookkeeping accumulates over everything the picklist was asked about (several selects, several databases) … -/
@@ -715,9 +777,9 @@ theorem found_accumulates (pl : Picklist) (a b : List Sig) :
 /-- … and `sig check -o` reports exactly the picklist values that no signature looked at carries (include style) -/
 theorem missing_values_exact (pl : Picklist) (hinc : pl.exclude = false) (asked : List Sig) (v : PVal) :
     v ∈ pl.missingAfter asked ↔
-      v ∈ pl.pickset ∧ ∀ s ∈ asked, applyPre (preOf pl.coltype) (sigAttr pl.coltype s) ≠ v := by
+      v ∈ pl.pickset ∧ ∀ s ∈ asked, applyPre pl.pre (sigAttr pl.coltype s) ≠ v := by
   have hfound : ∀ w, (pl.foundAfter asked).contains w = true ↔
-      w ∈ pl.pickset ∧ ∃ s ∈ asked, applyPre (preOf pl.coltype) (sigAttr pl.coltype s) = w := by
+      w ∈ pl.pickset ∧ ∃ s ∈ asked, applyPre pl.pre (sigAttr pl.coltype s) = w := by
     intro w
     simp only [Picklist.foundAfter, List.contains_iff_mem, List.mem_filter, List.mem_map, Picklist.decide, hinc,
       Bool.false_eq_true, if_false]
@@ -894,7 +956,7 @@ example :
 /-- a standalone manifest over two files, distinct keys: `SmiExact` holds and the selection is exact -/
 example :
     let rs := [(mkRow dnaA 0, dnaA), (mkRow protB 0, protB), (mkRow colC 1, colC)]
-    SmiExact rs (fun x => Sat { moltype := .val .DNA } x.2) ∧
+    SmiExact Gen.toPicklistExactCsv rs (fun x => Sat { moltype := .val .DNA } x.2) ∧
       ∃ y, ((Coll.smi (rs.map (·.1)) [(0, [dnaA, protB]), (1, [colC])]).select { moltype := .val .DNA }).2 = .ok y ∧
         y.signatures = .ok [dnaA, colC] := by
   refine ⟨?_, _, rfl, rfl⟩
